@@ -193,8 +193,7 @@ SPECS["C19"] = {
                        "region membership, returned radii, the deviate-to-value map of the samplers and mean + L z are "
                        "recomputed from the recorded deviates, including forced edge deviates a real generator returns "
                        "once in 2^53 draws. Sampling, not proof."),
-        "level_note": ("trusts the extended-precision separation formula, numpy.interp and an own Cholesky factorisation; "
-                       "one open known finding (positions within 2e-3 deg of a cap centre) is reported, not judged"),
+        "level_note": ("trusts the extended-precision separation formula, numpy.interp and an own Cholesky factorisation"),
         "technique": ("deterministic simulation: the random source is replaced by a seeded, recording, edge-forcing "
                       "stub; oracles recomputed from the recorded deviates"),
     },
